@@ -17,6 +17,7 @@ props! {
     c05: C05: "C05",
     c06: C06: "C06",
     c08: C08: "C08",
+    c11: C11: "C11",
     c12: C12: "C12",
     c13: C13: "C13",
     c14: C14: "C14",
